@@ -64,3 +64,136 @@ Print Assumptions C18_assign_partition.
 Print Assumptions C18_assign_exactly_one.
 Print Assumptions C18_assign_even.
 Print Assumptions C18_assign_recomputed.
+
+(** * Query half: the cluster merge (model C18/ClusterQuery.v, proofs C18/ClusterQueryProofs.v) *)
+From LMD Require Import QE.Engine QE.WindowProofs C01.Proofs C04.Proofs C05.Proofs C05.GroupByProofs C18.ClusterQuery C18.ClusterQueryProofs.
+From Coq Require Import Sorting.Sorted Permutation.
+
+(** * ======================================================================
+    * PROPERTY LEVEL STATEMENTS (to be copied into C18/Props.v)
+    * ======================================================================
+
+    [cluster_respond schema cfg me parts rq]: the answer of the cluster whose node
+    [i] holds the backends [nth i parts []] when node [me] receives the request;
+    [respond_req schema cfg ds rq]: the answer of one lmd holding [ds].
+    Hypotheses used: [Permutation (concat parts) ds] (every backend on exactly one
+    node, any node order); [0 <= rq_offset rq] (the parser rejects negative offsets);
+    [backend_limit rq <> None -> backends_sorted schema cfg ds rq] (only when the
+    request has a Limit and asks for the table's default order: every backend keeps
+    its rows in that order - the precondition of the early cut-off of C06, which
+    both the single node and every cluster node apply). *)
+
+(** A query sent to any node is answered like a single lmd holding all backends:
+    same error; data: the same sort keys at every position and the same number of
+    rows as the single node's window (Sort/Limit/Offset, any partition), every row
+    a distinct matching row of the dataset carrying these keys (ties may be
+    resolved differently), the same failed backends; stats: the same lines up to
+    their order, the same failed backends. *)
+Theorem C18_cluster_answers_like_single :
+  forall schema cfg me (parts : list dataset) (ds : dataset) rq,
+    Permutation (concat parts) ds -> (0 <= rq_offset rq)%Z ->
+    (backend_limit rq <> None -> backends_sorted schema cfg ds rq) ->
+    answers_like (spec_hits schema cfg ds rq) (respond_req schema cfg ds rq)
+                 (cluster_respond schema cfg me parts rq).
+Proof. exact cluster_answers_like_single. Qed.
+
+(** total_count is the number of all matching rows, as on the single node
+    (wrapped_json, or no early cut-off) *)
+Theorem C18_cluster_total_count :
+  forall schema cfg me (parts : list dataset) (ds : dataset) rq,
+    rq_stats rq = [] -> Permutation (concat parts) ds ->
+    (rq_format rq = FmtWrapped \/ backend_limit rq = None) ->
+    resp_total (cluster_respond schema cfg me parts rq) = resp_total (respond_req schema cfg ds rq).
+Proof. exact cluster_total_count. Qed.
+
+(** Stats: EXACTLY the lines (values and order) of one lmd holding the backends in
+    node order - no hypothesis at all (split invariance of the accumulators) ... *)
+Theorem C18_cluster_stats_node_order :
+  forall schema cfg me (parts : list dataset) rq,
+    rq_stats rq <> [] ->
+    resp_lines (cluster_respond schema cfg me parts rq) =
+    resp_lines (respond_req schema cfg (concat parts) rq).
+Proof. exact cluster_stats_node_order. Qed.
+
+(** ... hence for any partition the lines of the single node up to their order
+    (the engine lists group lines in order of first occurrence, lmd sorts them by
+    key afterwards), and equal without group-by Columns (one line) *)
+Theorem C18_cluster_stats_lines :
+  forall schema cfg me (parts : list dataset) (ds : dataset) rq,
+    rq_stats rq <> [] -> Permutation (concat parts) ds ->
+    Permutation (resp_lines (cluster_respond schema cfg me parts rq))
+                (resp_lines (respond_req schema cfg ds rq)) /\
+    (rq_columns rq = [] ->
+     resp_lines (cluster_respond schema cfg me parts rq) = resp_lines (respond_req schema cfg ds rq)).
+Proof. exact cluster_stats_lines. Qed.
+
+(** Data without Sort: exactly the rows (and their order) one lmd with the backends
+    in node order returns, for every Limit and Offset ... *)
+Theorem C18_cluster_data_unsorted :
+  forall schema cfg me (parts : list dataset) rq,
+    rq_stats rq = [] -> rq_sort rq = [] -> (0 <= rq_offset rq)%Z ->
+    resp_rows (cluster_respond schema cfg me parts rq) =
+    resp_rows (respond_req schema cfg (concat parts) rq).
+Proof. exact cluster_data_unsorted. Qed.
+
+(** ... and without Sort, Limit and Offset the same multiset of rows as the single
+    node for any partition (the single node lists them in backend order, the
+    cluster in node order) *)
+Theorem C18_cluster_data_plain :
+  forall schema cfg me (parts : list dataset) (ds : dataset) rq,
+    rq_stats rq = [] -> Permutation (concat parts) ds ->
+    rq_sort rq = [] -> rq_limit rq = None -> rq_offset rq = 0%Z ->
+    Permutation (resp_rows (cluster_respond schema cfg me parts rq))
+                (resp_rows (respond_req schema cfg ds rq)).
+Proof. exact cluster_data_plain. Qed.
+
+(** the merged rows against the specification of C06 (the window of all matching
+    rows sorted), and the heart of it: top-k of the nodes' top-k's *)
+Theorem C18_cluster_window_is_spec_window :
+  forall schema cfg (fps : list (ofmt * dataset)) (ds : dataset) rq,
+    rq_stats rq = [] -> Permutation (concat (map snd fps)) ds -> (0 <= rq_offset rq)%Z ->
+    (backend_limit rq <> None -> backends_sorted schema cfg ds rq) ->
+    map h_keys (fst (cluster_data rq (cluster_answers schema cfg fps rq))) =
+      map h_keys (fst (data_result_spec schema cfg ds rq)) /\
+    length (fst (cluster_data rq (cluster_answers schema cfg fps rq))) =
+      length (fst (data_result_spec schema cfg ds rq)).
+Proof. exact cluster_data_vs_spec. Qed.
+
+Theorem C18_cluster_topk :
+  forall {A} (leb : A -> A -> bool),
+    (forall a b, leb a b = true \/ leb b a = true) ->
+    (forall a b c, leb a b = true -> leb b c = true -> leb a c = true) ->
+    forall (K : nat) (bs hs : list (list A)),
+      Forall2 (fun h b => eqv_list leb h (firstn K (isort leb b))) hs bs ->
+      eqv_list leb (firstn K (isort leb (concat hs))) (firstn K (isort leb (concat bs))).
+Proof. intros A leb Ht Htr. exact (cluster_topk leb Ht Htr). Qed.
+
+(** Filter.ApplyValue on transported accumulators is the engine's merge *)
+Theorem C18_cluster_apply_value :
+  forall st (xs ys : list rowctx),
+    apply_acc (stat_kind st) (acc_rows st xs) (acc_rows st ys) = acc_rows st (xs ++ ys).
+Proof.
+  intros st xs ys. rewrite apply_acc_merge by apply acc_rows_ok. apply split_invariant.
+Qed.
+
+(** the merged rows are sorted by the Sort headers *)
+Theorem C18_cluster_sorted :
+  forall schema cfg (fps : list (ofmt * dataset)) rq,
+    rq_stats rq = [] -> rq_sort rq <> [] ->
+    StronglySorted (lebP (hleb rq)) (fst (cluster_data rq (cluster_answers schema cfg fps rq))).
+Proof. exact cluster_data_sorted. Qed.
+
+(** non-vacuity *)
+Definition C18_cluster_example := cluster_example.
+
+Print Assumptions C18_cluster_answers_like_single.
+Print Assumptions C18_cluster_total_count.
+Print Assumptions C18_cluster_stats_node_order.
+Print Assumptions C18_cluster_stats_lines.
+Print Assumptions C18_cluster_data_unsorted.
+Print Assumptions C18_cluster_data_plain.
+Print Assumptions C18_cluster_window_is_spec_window.
+Print Assumptions C18_cluster_topk.
+Print Assumptions C18_cluster_apply_value.
+Print Assumptions C18_cluster_sorted.
+Print Assumptions C18_cluster_example.
